@@ -64,6 +64,10 @@ type c07Resp struct {
 	Conc   string `json:"conc"`
 	Seq    string `json:"seq"`
 	Same   bool   `json:"same"`
+	// ShapeOK: a blocked A answer has the shape (rcode / address / TTL) of the requester's own
+	// blocking mode -- the server's default for anonymous clients and for a profile whose own
+	// message constructor cannot be built
+	ShapeOK bool `json:"shapeok"`
 }
 
 func c07Digest(m *dns.Msg) string {
@@ -167,7 +171,9 @@ func TestVerifC07Stack(t *testing.T) {
 		mode dnsmsg.BlockingMode
 		ttl  int
 	}{{"pa", &dnsmsg.BlockingModeNullIP{}, 11}, {"pb", &dnsmsg.BlockingModeREFUSED{}, 99}, {"pc", &dnsmsg.BlockingModeNXDOMAIN{}, 33},
-		{"pd", &dnsmsg.BlockingModeCustomIP{IPv4: []netip.Addr{netip.MustParseAddr("10.9.8.7")}}, 5}} {
+		{"pd", &dnsmsg.BlockingModeCustomIP{IPv4: []netip.Addr{netip.MustParseAddr("10.9.8.7")}}, 5},
+		// a profile whose constructor cannot be built (negative TTL): it is served with the default one
+		{"pe", &dnsmsg.BlockingModeCustomIP{IPv4: []netip.Addr{netip.MustParseAddr("10.66.66.66")}}, -5}} {
 		p, d := mkProf(spec.id, spec.mode, spec.ttl)
 		profs[fmt.Sprintf("127.0.0.%d", 10+i)] = pd{p, d}
 	}
@@ -330,6 +336,24 @@ func TestVerifC07Stack(t *testing.T) {
 			// DoQ clients send ID 0 on the wire by convention; here the real ID is kept and must be echoed
 			return r, r.Id == id, qok
 		}
+		if j.netw == "tcp-abort" {
+			// a client that goes away before its answer: the server's write fails (error paths of the
+			// response writers run while other clients are being answered)
+			d := &net.Dialer{LocalAddr: &net.TCPAddr{IP: net.ParseIP(j.client)}, Timeout: 3 * time.Second}
+			c, derr := d.Dial("tcp", addr)
+			if derr != nil {
+				return nil, false, false
+			}
+			m := new(dns.Msg).SetQuestion(j.name, j.qt)
+			m.Id = id
+			b, _ := m.Pack()
+			_, _ = c.Write(append(binary.BigEndian.AppendUint16(nil, uint16(len(b))), b...))
+			if tc, ok := c.(*net.TCPConn); ok {
+				_ = tc.SetLinger(0)
+			}
+			_ = c.Close()
+			return nil, false, false
+		}
 		cl := &dns.Client{Net: j.netw, Timeout: 3 * time.Second}
 		la := net.ParseIP(j.client)
 		if j.netw == "tcp" {
@@ -366,7 +390,7 @@ func TestVerifC07Stack(t *testing.T) {
 		jobs := make([][]*job, nclients)
 		for c := 0; c < nclients; c++ {
 			for i := 0; i < per; i++ {
-				jobs[c] = append(jobs[c], &job{client: fmt.Sprintf("127.0.0.%d", 10+c), netw: []string{"udp", "udp", "tcp", "doh", "doh", "doq"}[rng.Intn(6)],
+				jobs[c] = append(jobs[c], &job{client: fmt.Sprintf("127.0.0.%d", 10+c), netw: []string{"udp", "udp", "tcp", "doh", "doh", "doq", "tcp", "tcp-abort"}[rng.Intn(8)],
 					name: names[rng.Intn(len(names))], qt: types[rng.Intn(len(types))], do: rng.Intn(4) == 0})
 			}
 		}
@@ -383,6 +407,9 @@ func TestVerifC07Stack(t *testing.T) {
 		wg.Wait()
 		for c := 0; c < nclients; c++ {
 			for i, j := range jobs[c] {
+				if j.netw == "tcp-abort" {
+					continue
+				}
 				seq, _, _ := exchange(j, uint16(c*1000+i+1))
 				prof := "anonymous"
 				if x, ok := profs[j.client]; ok {
@@ -390,7 +417,7 @@ func TestVerifC07Stack(t *testing.T) {
 				}
 				cd, sd := c07Digest(j.conc), c07Digest(seq)
 				out.Emit(c07Resp{Ev: "Resp", Client: j.client, Prof: prof, Net: j.netw, Name: j.name, QType: j.qt, IDOK: j.idok, QOK: j.qok,
-					Conc: cd, Seq: sd, Same: cd == sd && j.conc != nil})
+					Conc: cd, Seq: sd, Same: cd == sd && j.conc != nil, ShapeOK: c07ShapeOK(prof, j.name, j.qt, j.conc)})
 			}
 		}
 	}
@@ -449,4 +476,30 @@ func c07TLSConfig(t testing.TB) *tls.Config {
 		t.Fatal(err)
 	}
 	return &tls.Config{Certificates: []tls.Certificate{{Certificate: [][]byte{der}, PrivateKey: key}}, MinVersion: tls.VersionTLS12}
+}
+
+// c07ShapeOK judges blocked A answers only.
+func c07ShapeOK(prof, name string, qt uint16, m *dns.Msg) bool {
+	if m == nil || qt != dns.TypeA || !strings.HasPrefix(strings.ToLower(name), "blocked") {
+		return true
+	}
+	oneA := func(ip string, ttl uint32) bool {
+		if m.Rcode != dns.RcodeSuccess || len(m.Answer) != 1 {
+			return false
+		}
+		a, ok := m.Answer[0].(*dns.A)
+		return ok && a.A.String() == ip && a.Hdr.Ttl == ttl
+	}
+	switch prof {
+	case "pa":
+		return oneA("0.0.0.0", 11)
+	case "pb":
+		return m.Rcode == dns.RcodeRefused && len(m.Answer) == 0
+	case "pc":
+		return m.Rcode == dns.RcodeNameError && len(m.Answer) == 0
+	case "pd":
+		return oneA("10.9.8.7", 5)
+	default: // anonymous, and pe (no constructor of its own)
+		return oneA("0.0.0.0", 7)
+	}
 }
